@@ -837,7 +837,8 @@ def audit(trace, max_problems=5):
                 bad("the searched position is left untouched" if not path else
                     "each child holds the parent's position after its move", path, when=what,
                     move=None if node.move is None else takio.j_move(node.move),
-                    expected=j_snap(pos), differing_squares_color_kind=diff_squares(pos, got))
+                    expected=j_snap(pos), differing_squares_color_kind=diff_squares(pos, got),
+                    ply_expected=pos[2], ply_found=got[2], reserves_expected=list(pos[1]), reserves_found=list(got[1]))
                 break
         o = outcome(pos)
         sims, value, v0 = node.simulations, fr(node.value, "value", path), fr(node.v_zero, "v_zero", path)
